@@ -893,12 +893,13 @@ impl<'a> EbpfVmFixedMbuff<'a> {
         data_offset: usize,
         data_end_offset: usize,
     ) -> Result<(), Error> {
+        // Load (and verify) the program first: if it is refused, the VM must be left unchanged.
+        self.parent.set_program(prog)?;
         let get_buff_len = |x: usize, y: usize| if x >= y { x + 8 } else { y + 8 };
         let buffer = vec![0u8; get_buff_len(data_offset, data_end_offset)];
         self.mbuff.buffer = buffer;
         self.mbuff.data_offset = data_offset;
         self.mbuff.data_end_offset = data_end_offset;
-        self.parent.set_program(prog)?;
         Ok(())
     }
 
